@@ -531,9 +531,9 @@ class TimeParameterType(ParameterType, metaclass=ABCMeta):
 
         element = getattr(elmaker, self.__class__.__name__)(name=self.name)
 
-        encoding_attrib = {
-            "units": self.unit
-        }
+        encoding_attrib = {}
+        if self.unit is not None:
+            encoding_attrib["units"] = self.unit
 
         if self.encoding.default_calibrator:
             if not isinstance(self.encoding.default_calibrator, calibrators.PolynomialCalibrator):
